@@ -193,17 +193,15 @@ def Writer.content (w : Writer) : Bytes := w.frames.flatten
 def Writer.done (w : Writer) : Bool := w.pc = w.frames.length + 3
 
 structure World where
+  /-- `tmp_file_counter` -/
   counter : Nat
-  /-- temporary files: counter value ↦ content -/
-  tmps : List (Nat × Bytes)
+  /-- temporary files `.tmp.<id>.internal.part`: counter value ↦ content -/
+  tmps : Nat → Option Bytes
   dest : Option Bytes
   writers : List Writer
-  deriving Repr
 
-def setTmp (tmps : List (Nat × Bytes)) (id : Nat) (v : Bytes) : List (Nat × Bytes) :=
-  (id, v) :: tmps.filter (·.1 ≠ id)
-
-def getTmp (tmps : List (Nat × Bytes)) (id : Nat) : Option Bytes := (tmps.find? (·.1 = id)).map (·.2)
+def setTmp (tmps : Nat → Option Bytes) (id : Nat) (v : Option Bytes) : Nat → Option Bytes :=
+  fun j => if j = id then v else tmps j
 
 /-- writer `w` performs its next atomic step -/
 def wstep (wd : World) (w : Writer) : World × Writer :=
@@ -212,14 +210,14 @@ def wstep (wd : World) (w : Writer) : World × Writer :=
     ({ wd with counter := wd.counter + 1 }, { w with pc := 1, tmpId := wd.counter })
   else if w.pc = 1 then
     -- `File::create(tmp)`
-    ({ wd with tmps := setTmp wd.tmps w.tmpId [] }, { w with pc := 2 })
+    ({ wd with tmps := setTmp wd.tmps w.tmpId (some []) }, { w with pc := 2 })
   else if w.pc < w.frames.length + 2 then
     -- append frame number `pc - 2`
-    let cur := (getTmp wd.tmps w.tmpId).getD []
-    ({ wd with tmps := setTmp wd.tmps w.tmpId (cur ++ w.frames.getD (w.pc - 2) []) }, { w with pc := w.pc + 1 })
+    let cur := (wd.tmps w.tmpId).getD []
+    ({ wd with tmps := setTmp wd.tmps w.tmpId (some (cur ++ w.frames.getD (w.pc - 2) [])) }, { w with pc := w.pc + 1 })
   else if w.pc = w.frames.length + 2 then
     -- `rename(tmp, dest)`: atomic
-    ({ wd with dest := getTmp wd.tmps w.tmpId, tmps := wd.tmps.filter (·.1 ≠ w.tmpId) }, { w with pc := w.pc + 1 })
+    ({ wd with dest := wd.tmps w.tmpId, tmps := setTmp wd.tmps w.tmpId none }, { w with pc := w.pc + 1 })
   else (wd, w)
 
 /-- the scheduler lets writer number `i` take one step -/
@@ -227,12 +225,12 @@ def sched (wd : World) (i : Nat) : World :=
   match wd.writers[i]? with
   | none => wd
   | some w =>
-    let (wd', w') := wstep wd w
-    { wd' with writers := wd'.writers.set i w' }
+    let r := wstep wd w
+    { r.1 with writers := r.1.writers.set i r.2 }
 
 def runSched (wd : World) (schedule : List Nat) : World := schedule.foldl sched wd
 
 def initWorld (old : Option Bytes) (contents : List (List Bytes)) : World :=
-  { counter := 0, tmps := [], dest := old, writers := contents.map fun f => { frames := f } }
+  { counter := 0, tmps := fun _ => none, dest := old, writers := contents.map fun f => { frames := f } }
 
 end S3V.FsWrite
